@@ -178,7 +178,7 @@ def check(ctx):
     ctx.ob("LAYER.clone.bind-leaf", lclone, "if bind_to is not None and is_leaf: value = (chunks.bind, value, bind_to); bound = True", ok)
     ok = len(store) == 1 and store[0][0] in loop.body
     ctx.ob("LAYER.clone.store", lclone, "every key (cloned or not) is stored in the new layer", ok)
-    ok = any(Pat("(MaterializedLayer(dsk_new), bound)").match(r.value) is not None for r in returns(lclone))
+    ok = (all(Pat("(MaterializedLayer(dsk_new), bound)").match(r.value) is not None for r in returns(lclone)) and bool(returns(lclone)))
     ctx.ob("LAYER.clone.result", lclone, "returns (MaterializedLayer(dsk_new), bound)", ok)
     # clone_value
     rk = find("clone_key(o, seed)", cv)
